@@ -536,6 +536,107 @@ def voice_assistant(ctx: Ctx) -> None:
                             g_.cancel()
 
 
+def unsubscribe_while_disconnecting(ctx: Ctx) -> None:
+    """Integration unload order: `await client.disconnect()` is started, and while it is still waiting for the device's DisconnectResponse (the
+    session is fully alive and the device keeps streaming) the application runs the unsubscribe functions it collected.  Each one stops its
+    deliveries at once; subscriptions not yet unsubscribed keep receiving until the session ends."""
+    from aioesphomeapi import api_pb2 as pb
+
+    res = ctx.res
+    kinds = ("adv", "raw", "free", "va", "states-kept")
+    idx = 0
+    for answer_after in (0.8, None):
+        for unsub_at in (0.0, 0.1):
+            for coalesce in (False, True):
+                idx += 1
+                if not ctx.mine(idx):
+                    continue
+                with Sim() as sim:
+                    cfg = DeviceConfig()
+                    if answer_after is None:
+                        cfg.answer_disconnect = False
+                    else:
+                        cfg.handlers["DisconnectRequest"] = lambda c, m, d=answer_after: c.send("DisconnectResponse", _delay=d)
+                    dev = sim.device(cfg)
+                    cli = sim.client(keepalive=1e5)
+                    c = sim.call("connect", lambda: cli.connect(login=False))
+                    sim.run(until=lambda: c.done, max_time=sim.clock + 50)
+                    dconn = dev.conn
+                    log: list[tuple[str, float]] = []
+
+                    async def h_start(conv: str, flags: int, settings: Any, wake: Any) -> Any:
+                        log.append(("va", sim.clock))
+                        return None
+
+                    async def h_stop(abort: bool) -> None:
+                        log.append(("va", sim.clock))
+
+                    async def h_audio(data: bytes) -> None:
+                        log.append(("va", sim.clock))
+
+                    un = {"adv": cli.subscribe_bluetooth_le_advertisements(lambda a: log.append(("adv", sim.clock))),
+                          "free": cli.subscribe_bluetooth_connections_free(lambda f, l: log.append(("free", sim.clock))),
+                          "va": cli.subscribe_voice_assistant(handle_start=h_start, handle_stop=h_stop, handle_audio=h_audio)}
+                    cli.subscribe_states(lambda st: log.append(("states-kept", sim.clock)))
+                    if idx % 2:
+                        # (parsed and raw advertisement subscriptions are alternatives on one session)
+                        un["adv"]()
+                        un["raw"] = cli.subscribe_bluetooth_le_raw_advertisements(lambda a: log.append(("raw", sim.clock)))
+                        del un["adv"]
+                    sim.run_for(0.01)
+
+                    def burst() -> list[Any]:
+                        return [pb.BluetoothLEAdvertisementResponse(address=3, name=b"n", rssi=-4),
+                                pb.BluetoothLERawAdvertisementsResponse(advertisements=[pb.BluetoothLERawAdvertisement(address=5, rssi=-3, data=b"\x01")]),
+                                pb.BluetoothConnectionsFreeResponse(free=1, limit=2),
+                                pb.VoiceAssistantRequest(start=True, conversation_id="c", flags=0),
+                                pb.VoiceAssistantAudio(data=b"\x00\x01", end=False),
+                                pb.SensorStateResponse(key=1, state=2.0)]
+
+                    send_stream(sim, dconn, burst(), [6] if coalesce else [1] * 6)
+                    before = {k for k, _ in log}
+                    t0 = sim.clock
+                    d = sim.call("disconnect", lambda: cli.disconnect())
+                    sim.run_for(unsub_at) if unsub_at else sim.small_step()
+                    still_up = sim.conns[0].obj.connection_state.name == "CONNECTED"
+                    raised: list[str] = []
+                    t_unsub = sim.clock
+                    for k, f in un.items():
+                        try:
+                            f()
+                        except Exception as e:  # noqa: BLE001
+                            raised.append(f"{k}: {e!r}")
+                    n_at_unsub = len(log)
+                    for _ in range(3):
+                        send_stream(sim, dconn, burst(), [6] if coalesce else [1] * 6)
+                        sim.run_for(0.05)
+                    late = [(k, round(t - t0, 4)) for k, t in log[n_at_unsub:]]
+                    sim.run(until=lambda: d.done, max_time=sim.clock + 30)
+                    res.evaluations += 1
+                    res.count("workload/unsubscribe-while-disconnecting")
+                    res.sig("unsub-while-disconnecting", answer_after, unsub_at, coalesce, idx % 2)
+                    case = {"kind": "unsubscribe-while-disconnecting", "disconnect_answered_after": answer_after, "unsubscribe_at": unsub_at, "coalesce": coalesce}
+                    if sim.harness_errors:
+                        res.inconclusive.append("C17 unsubscribe-while-disconnecting: " + sim.harness_errors[0][-300:])
+                        continue
+                    if not still_up:
+                        res.count("workload/unsubscribe-while-disconnecting/session-already-over")
+                        continue
+                    missing_before = set(un) - before
+                    if missing_before:
+                        res.inconclusive.append(f"C17 unsubscribe-while-disconnecting: no delivery for {sorted(missing_before)} before the disconnect")
+                        continue
+                    if raised:
+                        res.violation("C17/unsubscribe/raised", f"unsubscribe functions called while disconnect() was waiting for the device raised: {raised}", case)
+                    bad = sorted({k for k, _ in late if k in un})
+                    if bad:
+                        res.violation("C17/unsubscribe/still-delivered", f"disconnect() pending (session still CONNECTED), unsubscribed at +{t_unsub - t0:.3f}s; deliveries "
+                                      f"afterwards: {[x for x in late if x[0] in un][:6]}", case, trace=sim.trace(40))
+                    if not any(k == "states-kept" for k, _ in late):
+                        res.violation("C17/state/delivery-stopped-before-session-end", "the state subscription (never unsubscribed) got nothing more although the session was "
+                                      "still up while disconnect() waited for the device", case, trace=sim.trace(40))
+
+
 def camera_across_subscriptions(ctx: Ctx) -> None:
     """Reassembly state belongs to ONE subscription of ONE session: chunks left incomplete when a session ends must not leak into the images of the
     next session of the same client, and two subscribe_states() subscribers on one connection each get every complete image, unmixed."""
@@ -704,6 +805,7 @@ def shard(ctx: Ctx) -> None:
         other_subscriptions(ctx)
     if ctx.shard == 2:
         unsubscribe_positions(ctx)
+    unsubscribe_while_disconnecting(ctx)
     if ctx.shard == 3:
         from vf import protoparse
 
